@@ -141,6 +141,9 @@ class Tracer:
             "sink": bool(tg.is_sink_task(t)),
             "src": bool(tg.is_source_task(t)),
             "prof": self.prof_index(t.profile),
+            # probability when the task graph was created (millionths): with conditionals resolved at submission this is
+            # 1000000 on the resolved branch and 0 on the others (C07)
+            "p0": int(round(t.probability * 1000000)),
         }
 
     # -- projection -----------------------------------------------------------
@@ -453,12 +456,29 @@ def _install(tr: Tracer):
         rec = {"k": "ev", "ty": d["ty"], "tm": d["tm"], "t": d["t"], "g": d["g"], "pl": d["pl"], "pr": d["pr"]}
         tr.begin(rec)
         exc = None
+        if d["ty"] == 6:
+            # UPDATE_WORKLOAD: whether the loader handed over a Workload (even one without new task graphs) or None
+            ldr = self._workload_loader
+            inner = ldr.get_next_workload
+            rec["upd"] = False
+
+            def gnw(*a, **k):
+                r = inner(*a, **k)
+                rec["upd"] = r is not None
+                return r
+
+            ldr.get_next_workload = gnw
         try:
             return orig_handle(self, event)
         except Exception as e:  # noqa
             exc = e
             raise
         finally:
+            if d["ty"] == 6:
+                try:
+                    del self._workload_loader.get_next_workload
+                except AttributeError:
+                    pass
             lp = self._last_scheduler_placements
             if d["ty"] == 11 and lp is not None:
                 rec["sched"] = {
